@@ -61,6 +61,7 @@ def build(p: Dict[str, Any]) -> Dict[str, Any]:
         "constants": {"K2": "K * 2", "BIG": "K * 1000 + 7", "HALF": "K / 2", "INV": "1 / K", "SPAN": "(K2 + 1) / 2", "THIRD": "K / 3", "SEVENTH": "(K2 + 1) / 7",
                       "CONSTANT_WITH_A_NAME_THAT_GOES_PAST_COLUMN_FORTY_EIGHT": 77,
                       **{f"W{i}": i + 1 for i in range(12)}, "WIDE": " + ".join(f"W{i}" for i in range(12))},
+        "metadata": {"author": "verif", "rig": "bench 3", "revision": 7, "calibrated": True},
         "string_constants": {"GREETING": "hello world"},
         "aliases": {"A1": p["n4"], "A2": "A1"},
         "host_ids": {"MYHOST": 10, "CHID_X": 11},
@@ -84,6 +85,9 @@ def build(p: Dict[str, Any]) -> Dict[str, Any]:
         imp["message_defs"] = {"MSG_IN": {"id": 1030, "fields": {"v": "int32", "w": "int16[2]"}}}
         root["struct_defs"]["HOLDER"] = {"m": "MSG_IN", "n": "int32"}
         root["message_defs"]["MSG_V"] = {"id": 1020, "fields": {"h": "HOLDER"}}
+    elif v == "sections_reversed":       # the sections of every file written bottom-up: message_defs first, imports last
+        root["__order__"] = "reversed"
+        imp["__order__"] = "reversed"
     elif v == "signed_char":
         root["message_defs"]["MSG_V"] = {"id": 1020, "fields": {"q": "signed char", "r": "signed char[3]"}}
     elif v == "message_in_message":
